@@ -238,6 +238,18 @@ pub fn eval_call_method(program: &Program, state: &mut State, index: &ConstantPo
 }
 
 fn dispatch_method(program: &Program, state: &mut State, receiver_pointer: Pointer, method_name: &str, argument_pointers: Vec<Pointer>) -> Result<()> {
+    // Objects that do not define the method themselves pass the call on to their parent. Walk up
+    // the chain here, in a loop, instead of through the mutual recursion with
+    // `dispatch_object_method`: a long chain of parents must not exhaust the native stack.
+    let mut receiver_pointer = receiver_pointer;
+    while let Pointer::Reference(index) = receiver_pointer {
+        match state.heap.dereference(&index)? {
+            HeapObject::Object(object) if !object.parent.is_null() && !object.methods.contains_key(method_name) =>
+                receiver_pointer = object.parent,
+            _ => break,
+        }
+    }
+
     match receiver_pointer {
         Pointer::Null => {
             dispatch_null_method(method_name, argument_pointers)?
